@@ -133,6 +133,9 @@ def decOp (s : String) : Option (Op × List String) :=
   | ["trimseqs", n, fs] => (parseInt? n).map fun v => (.trimSeqs v (decBool fs), [])
   | ["autoalpha"] => some (.autoAlpha, [])
   | ["revcomp"] => some (.revcomp, [])
+  | ["rmgapsites", f, e] => do
+    let (x, y) ← frac f
+    pure (.rmGapSites x y (decBool e), [])
   | ["replacechar", n, i, c] => do
     let x ← parseInt? i; let ch ← (bytesOfString c).head?
     pure (.replaceChar (pctDec n) x ch, [])
